@@ -293,3 +293,164 @@ def r2(cx):
         cx.passed(ck, "reuse-only-while-eligible", [b.sp(e[0], e[1]) for e in oks[:2]])
     else:
         cx.violation(ck, "reuse-only-while-eligible", "assign_shard can hand back an existing assignment without checking that its node can still accept writes", [b.sp(e[0], e[1]) for e in bad[:2]])
+
+
+LOCK_ACQ = re.compile(r"^(tokio|std)::sync::(RwLock|Mutex)::<T>::(read|write|lock)$")
+
+
+def _self_type_prefix(key):
+    k = named_parent(key)
+    return k.rsplit("::", 1)[0] + "::" if "::" in k else None
+
+
+def _direct_acqs(cx, fn_key):
+    """{(field, mode, site)} lock acquisitions on fields of `self` made directly in fn_key's code body"""
+    out = set()
+    for k in cx.prog.sub_bodies(fn_key):
+        b = cx.body(k)
+        if b is None:
+            continue
+        for bi, t in b.calls():
+            m = LOCK_ACQ.match(t["callee"])
+            if not m or not t["args"]:
+                continue
+            o = M.operand_origins(b, t["args"][0], at=(bi, M.T))
+            for x in o:
+                if x[0] in ("upvar", "arg") and str(x[1]) in ("self", "1") and x[2].startswith("."):
+                    out.add((x[2].split("@")[0], "write" if m.group(3) in ("write", "lock") else "read", b.sp(bi)))
+    return out
+
+
+def _self_calls(cx, fn_key):
+    """[(body key, block, callee)] calls from fn_key's bodies to methods of the same type on the same `self`"""
+    pre = _self_type_prefix(fn_key)
+    out = []
+    for k in cx.prog.sub_bodies(fn_key):
+        b = cx.body(k)
+        if b is None:
+            continue
+        for bi, t in b.calls():
+            c = t["callee"]
+            if pre and c.startswith(pre) and "::{closure" not in c and c in cx.prog.calls and t["args"]:
+                o = M.operand_origins(b, t["args"][0], at=(bi, M.T))
+                if any(x[0] in ("upvar", "arg") and str(x[1]) in ("self", "1") and x[2] == "" for x in o):
+                    out.append((k, bi, c))
+    return out
+
+
+def _trans_acqs(cx, fn_key, memo, depth=0):
+    if fn_key in memo:
+        return memo[fn_key]
+    memo[fn_key] = set()
+    acc = {(f, m, sp, fn_key) for (f, m, sp) in _direct_acqs(cx, fn_key)}
+    if depth < 6:
+        for (_, _, c) in _self_calls(cx, fn_key):
+            acc |= _trans_acqs(cx, c, memo, depth + 1)
+    memo[fn_key] = acc
+    return acc
+
+
+@rule("C19", "R5", "no self-deadlock on the routing structures: while a guard of one of `self`'s tokio locks is live, no method of the same object is called that (transitively) acquires the "
+      "same lock with a write on either side - tokio's RwLock / Mutex are not re-entrant, the task waits for itself for ever and every later route_write / assign / rebalance queues "
+      "behind it")
+def r5(cx):
+    memo = {}
+    fns = [k for k in cx.prog.fn_keys(r"^cluster::(shard_assignment|node_registry|write_router|query_router)::[A-Za-z]+::[a-z_0-9]+$")]
+    cx.floor("methods of the routing structures", len(fns), 20)
+    n = 0
+    considered = 0
+    for fk in fns:
+        calls = _self_calls(cx, fk)
+        if not calls:
+            continue
+        for (k, bi, c) in calls:
+            b = cx.body(k)
+            inner = _trans_acqs(cx, c, memo)
+            if not inner:
+                continue
+            considered += 1
+            for g, ty in M.guard_locals(b).items():
+                if not re.search(r"tokio::sync::(RwLock(Read|Write)Guard|MutexGuard|OwnedRwLock|OwnedMutexGuard)|std::sync::(RwLock(Read|Write)Guard|MutexGuard)", ty):
+                    continue
+                if not M.held_at(b, g, bi):
+                    continue
+                gmode = "read" if "ReadGuard" in ty else "write"
+                gfields = {f[1].split("@")[0] for f in M.guard_source(b, g) if str(f[0]) in ("self", "1")}
+                for (f, m, sp, where) in sorted(inner):
+                    if f in gfields:
+                        n += 1
+                        if gmode == "write" or m == "write":
+                            cx.violation(fk, "reentrant-lock:%s->%s" % (f.lstrip("."), c.rsplit("::", 1)[1]), "%s: %s calls %s while holding the %s guard of self%s, and %s takes that lock again (%s at %s): "
+                                         "the task deadlocks on itself" % (b.sp(bi), named_parent(fk).rsplit("::", 1)[1], c.rsplit("::", 1)[1], gmode, f, named_parent(where).rsplit("::", 1)[1], m, sp), [b.sp(bi), sp])
+    cx.floor("self-calls into lock-acquiring methods of the routing structures", considered, 3)
+    if not any(v["rule"] == "R5" for v in cx.violations):
+        cx.passed("cluster", "no-reentrant-lock", [], "%d methods, %d self-calls into lock-acquiring methods examined, %d of them under a guard of the same lock field (read/read only)" % (len(fns), considered, n))
+
+
+STATUSES = ["Healthy", "Suspected", "Failed", "Draining"]
+
+
+def _status_transitions(cx):
+    """[(src set, dst, fn key, span)] for every `x.status = NodeStatus::V` in the registry: src = statuses under which the assignment is reachable, read off the
+    NodeStatus switches of the same body (an unguarded assignment has every status as source)"""
+    out = []
+    for k in cx.prog.fn_keys(r"^cluster::node_registry::"):
+        b = cx.body(k)
+        if b is None:
+            continue
+        switches = [(bi, blk["term"]) for bi, blk in enumerate(b.blocks) if not blk.get("cleanup") and blk["term"]["k"] == "switch" and (blk["term"].get("enum") or "").endswith("NodeStatus")]
+        for bi, blk in enumerate(b.blocks):
+            if blk.get("cleanup"):
+                continue
+            for si, st in enumerate(blk["stmts"]):
+                p = st["lhs"].get("p") or []
+                if not (p and isinstance(p[-1], dict) and p[-1].get("n") == "status"):
+                    continue
+                o = M.operand_origins(b, st["rv"]["o"], at=(bi, si)) if st["rv"]["k"] == "use" else set()
+                dsts = {str(x[1][2]).rsplit("::", 1)[1] for x in o if x[0] == "agg" and "NodeStatus::" in str(x[1][2])}
+                src = set(STATUSES)
+                for (sb, t) in switches:
+                    if not (sb == bi or b.reaches(sb, bi)):
+                        continue
+                    allowed = set()
+                    listed = dict(zip(t["variants"], t["targets"]))
+                    for v in STATUSES:
+                        tg = listed.get(v, t["otherwise"])
+                        if tg is not None and (tg == bi or b.reaches(tg, bi, removed_blocks={sb})):
+                            allowed.add(v)
+                    src &= allowed
+                for d in dsts or {"?"}:
+                    out.append((frozenset(src), d, k, b.sp(bi, si)))
+    return out
+
+
+@rule("C19", "R6", "draining is final: in the registry's status machine no chain of status assignments leads from Draining back to Healthy (a drained node leaves only by removal or by "
+      "failing) - otherwise a node the operator drained is handed writes again")
+def r6(cx):
+    tr = _status_transitions(cx)
+    if not cx.floor("status assignments in the node registry", len(tr), 4):
+        return
+    if any(d == "?" for (_, d, _, _) in tr):
+        bad = [x for x in tr if x[1] == "?"][0]
+        cx.violation(bad[2], "status-assignment-shape", "%s: a status assignment whose new value is not a NodeStatus literal" % bad[3], [bad[3]])
+        return
+    reach = {"Draining": None}
+    frontier = ["Draining"]
+    while frontier:
+        s = frontier.pop()
+        for (src, d, k, sp) in tr:
+            if s in src and d not in reach:
+                reach[d] = (s, k, sp)
+                frontier.append(d)
+    if "Healthy" in reach:
+        chain = []
+        s = "Healthy"
+        while reach.get(s):
+            p, k, sp = reach[s]
+            chain.append("%s -> %s in %s (%s)" % (p, s, named_parent(k).rsplit("::", 1)[1], sp))
+            s = p
+        chain.reverse()
+        cx.violation(reach["Healthy"][1], "draining-is-final", "a drained node can become Healthy again without being re-registered: %s; route_write then returns a node the operator took out of service" % "; ".join(chain),
+                     [reach[x][2] for x in reach if reach[x]])
+    else:
+        cx.passed("cluster::node_registry", "draining-is-final", [x[3] for x in tr], "transitions: %s" % sorted({"%s->%s" % ("|".join(sorted(s)), d) for (s, d, _, _) in tr}))
